@@ -219,6 +219,12 @@ func c07r6(c *core.Ctx) {
 	lastFramePolarity(c, dec, 1024)
 	// (0') plain text or decryption is chosen when the data is there, not before the read blocks
 	modeDecidedAfterData(c)
+	// (0'') the error tests of the read path have their polarity: a failed Peek / Decrypt leaves with the error, a successful one goes on
+	for _, name := range []string{"DecryptedRead", "Read"} {
+		if f := p.Func("hap", "(*Connection)."+name); f != nil {
+			errorTestPolarity(c, f, nil)
+		}
+	}
 	// (a) one decrypt per read: the Decrypt call is not inside a loop of DecryptedRead; its error is never swallowed
 	for _, s := range core.FindCalls(dr, func(i ssa.Instruction) bool { return core.IsInvoke(i, mod+"/crypto.Decrypter", "Decrypt") }) {
 		c.Check(!reachesAfter(s, s), "decrypt-once-per-read@"+fname(dr), posOf(s), "Decrypt is called at most once per Read (no loop)",
